@@ -49,9 +49,5 @@ Definition check_save (c : case) : bool :=
 Definition check_canon (c : case) : bool :=
   match canon_xmi (k_schema c) (k_cas c) with Ok x => ccas_eqb x (k_canon c) | _ => false end.
 Definition check_case (c : case) : bool := check_doc_ok c && check_denote c && check_save c && check_canon c.
-(* premises of the theorems in Props/C04.v: the CAS after the traversal is well-formed for the structures found *)
-Definition premises (c : case) : bool :=
-  match written (k_schema c) (k_cas c) with
-  | Ok ca => wf_xmib (k_schema c) (fst ca) (snd ca)
-  | _ => false
-  end.
+(* premises of the theorems in Props/C04.v: well-formedness of the input CAS (nothing about the written set) *)
+Definition premises (c : case) : bool := wf_inb (k_schema c) (k_cas c).
